@@ -189,14 +189,14 @@ def gen_case(rng, idx=0, quick=True):
             steps.append(["pause", 0.05])
             steps.append(["seek", 0])
             steps.append(["read", None])
-    elif stratum < 0.27:
+    elif stratum < (0.25 if quick else 0.23):
         # a second readv() while the prefetch thread of the first is still registering thousands of requests
         size = rng.choice([20000, 65536, 150000])
         short, short_at = None, {}
-        n1 = rng.choice([1000, 2000] if quick else [1500, 3000])
+        n1 = rng.choice([1000, 1500])  # beyond ~2000 buffered ranges the reads themselves become quadratic
         c1 = [[rng.randint(0, size - 1), rng.randint(1, 48)] for _ in range(n1)]
         # many ranges in the second call: each one walks the request table the first call's thread is still filling
-        c2 = [[rng.randint(0, size + 20), rng.randint(1, 300)] for _ in range(rng.randint(150, 400))] + [[size + 5, 10], [max(0, size - 7), 30]]
+        c2 = [[rng.randint(0, size + 20), rng.randint(1, 300)] for _ in range(rng.randint(150, 250) if quick else rng.randint(150, 400))] + [[size + 5, 10], [max(0, size - 7), 30]]
         rng.shuffle(c2)
         steps = [["readv_pair", c1, rng.choice([None, None, 8]), c2, cap(), 2 if quick else rng.choice([5, 10])]]
         if rng.random() < 0.5:
@@ -289,7 +289,11 @@ def watch(wire, w, before, exclude, is_done, cap, progress=lambda: None, quiet_s
                 b2 = (len(wire.c2s.raw), len(wire.c2s.buf))
             q = (b1, b2, tuple(tstate), progress())
             if qstable and qstable[1] == q:
-                if now - qstable[0] >= quiet_s:
+                # a caller that is itself a sender stuck on the full pipe is not judged by anybody (capacity
+                # deadlock, see vf/props/c28.py): no need to sit out the whole margin
+                caller_sending = any(x is not None and x.f_code.co_name == "send" and x.f_code.co_filename.endswith("sftpfaults.py")
+                                     for x in (wf, wf.f_back, wf.f_back.f_back if wf.f_back else None))
+                if now - qstable[0] >= (2.0 if caller_sending else quiet_s):
                     import traceback
 
                     return dict(status="hang", kind="blocked_at_quiescence", chain=list(snap_[2]), requests=reqs, responses=resps,
